@@ -1881,7 +1881,7 @@ func c01Behaviours(c *core.Ctx, envs map[string]*rbEnv, order []string) {
 				w.replayBehaviour(i, b, []string{"bkt"}, []string{"k1", "k2", "k3"}, basicSetup("plain", false), true)
 				nw := 0
 				for _, s := range b.Tr {
-					if s.Op == "PutObject" || s.Op == "CopyObject" || s.Op == "DeleteObject" {
+					if s.Op == "PutObject" || s.Op == "CopyObject" || s.Op == "CopyObjectVersion" || s.Op == "DeleteObject" {
 						nw++
 					}
 				}
